@@ -14,10 +14,10 @@ import (
 // driver renders the model's `GoFile` view (lean/Varlink/Gen/View.lean) in the same format
 // (lean/Driver/CmdsGen.lean `renderFile`) and compares the two byte for byte.
 //
-//   package <p> / import <path> / type <n> <ty> / alias <n> <ty> (type n = ty) / iface <n> + " m <n> (<fields>) (<fields>)"
-//   func <recv|-> <n> (<fields>) (<fields>) uses=<pkgs>  followed by the body records, one space per depth:
-//     var <n> <ty> | def <a,b> | set <e> = <e> | args <a.b.c> (<e>;…) | use <x.f> | str <x.f> x<hex>
-//     | ret x<hex> | closure (<fields>) (<fields>) | case x<hex> | case -
+//	package <p> / import <path> / type <n> <ty> / alias <n> <ty> (type n = ty) / iface <n> + " m <n> (<fields>) (<fields>)"
+//	func <recv|-> <n> (<fields>) (<fields>) uses=<pkgs>  followed by the body records, one space per depth:
+//	  var <n> <ty> | def <a,b> | set <e> = <e> | args <a.b.c> (<e>;…) | use <x.f> | str <x.f> x<hex>
+//	  | ret x<hex> | closure (<fields>) (<fields>) | case x<hex> | case -
 func goSummary(src []byte) []byte {
 	fset := token.NewFileSet()
 	f, err := parser.ParseFile(fset, "x.go", src, 0)
